@@ -38,6 +38,14 @@ for g in sorted(glob.glob(os.path.join(V, "seeded", "*", "meta.json"))):
     m = json.load(open(g))
     out.append("| %s | %s | %s | %s | %s |" % (m["id"], m["property"], esc(m["what"])[:230], esc(m["needs_to_manifest"])[:160], esc(m.get("caught_by", ""))[:260]))
 out.append("")
+rf = sorted(glob.glob(os.path.join(V, "refactors", "*", "meta.json")))
+if rf:
+    out.append("### 12.3b Behaviour-preserving refactorings and the checks' verdicts (generated from refactors/*/meta.json; expected verdict: OK)\n")
+    out.append("| id | property | what the refactoring is | verdict of the check | detail when it alarms |\n|---|---|---|---|---|")
+    for g in rf:
+        m = json.load(open(g))
+        out.append("| %s | %s | %s | %s | %s |" % (m["id"], m["property"], esc(m["what"])[:200], esc(m["check_result"])[:90], esc("; ".join(m.get("detail", [])))[:220] + (" — " + esc(m["comment"]) if m.get("comment") else "")))
+    out.append("")
 out.append("### 12.4 Per-property build notes (as built; copied from design-notes/Cxx.md by tools/mkdesign.py)\n")
 for g in sorted(glob.glob(os.path.join(V, "design-notes", "C*.md"))):
     pid = os.path.basename(g)[:-3]
